@@ -2,7 +2,7 @@
 from ..engine import rule
 from ..db import (walk, peel, peel_casts, render, callee, path_ends, short_path, is_call, call_args, lit_int,
                   exit_kind, path_conditions, atoms, AnchorMissing, local_name)
-from ..guards import guarded_exits, mentions, is_call_to
+from ..guards import guarded_exits, mentions, is_call_to, cmp_atom
 from ..origins import field_writes
 from .. import wimodel
 from ..wimodel import flag_names
@@ -255,3 +255,50 @@ def fixups(db, ctx):
 def split_subset(db, ctx):
     from . import C09
     C09.offsets(db, ctx)
+
+
+@rule("C11.mode-flag", "the split list of the mode a tokenizer is switched to is requested whatever field subset is installed (re-evaluation of C09.pairing)")
+def mode_flag_reeval(db, ctx):
+    from . import C09
+    C09.pairing(db, ctx)
+
+
+@rule("C11.fixup-reachable", "requesting ONE reference field is enough for its fix-up to run on a user-dictionary word: each fix-up block of "
+                             "LexiconSet::get_word_info_subset is reachable when the subset is exactly its own flag (no earlier exit keyed on other flags)")
+def fixup_reachable(db, ctx):
+    from ..flow import holds_at
+    pf, rows = wimodel.parser_table(db)
+    field_flag = {r["field"]: next(iter(r["flag"])) for r in rows if len(r["flag"]) == 1}
+    f = db.view(db.one("get_word_info_subset", "LexiconSet"), keep=("update_dict_id",))
+    n = 0
+    for x, ps in walk(f.hir):
+        # a fix-up site: an assignment to, or an update_dict_id call on, a reference field of the word info
+        tgt = None
+        if x.get("k") == "Assign" and peel(x["l"]).get("k") == "Field" and peel(x["l"]).get("name") in ("pos_id",) and (peel(x["l"]).get("adt") or "").endswith("WordInfoData"):
+            tgt = "pos_id"
+        if is_call(x) and path_ends(callee(x) or "", "update_dict_id"):
+            for y, _ in walk(call_args(x)[0] if call_args(x) else {}):
+                if y.get("k") == "Field" and y.get("name") in ("a_unit_split", "b_unit_split", "word_structure"):
+                    tgt = y["name"]
+        if tgt is None or tgt not in field_flag:
+            continue
+        flag = field_flag[tgt]
+        pcs = path_conditions(x["id"], f.hir) or []
+
+        def ev(atom, flag=flag):
+            a = peel(atom)
+            if a.get("k") == "MethodCall" and a.get("method") in ("contains", "intersects") and "subset" in render(a["recv"], x=True):
+                fl = flag_names(a["args"][0])
+                if any(s.startswith("?") for s in fl):
+                    return None
+                return (fl <= {flag}) if a["method"] == "contains" else (flag in fl)
+            c = cmp_atom(a)
+            if c and lit_int(c[2]) == 0 and "dic" in render(c[1], x=True):
+                return {"Gt": True, "Eq": False, "Ne": True, "Ge": True, "Lt": False, "Le": False}.get(c[0])
+            return None
+        r = holds_at(pcs, ev)
+        n += 1
+        ctx.ob("fixup-reachable|%s" % tgt, r is not False,
+               "with the subset {%s} and a user-dictionary word the fix-up of .%s is %s" % (flag, tgt, "reachable" if r is not False else
+                                                                                        "UNREACHABLE: an earlier exit / guard is keyed on other flags, the field is returned un-rebased"), fn=f, site=x.get("sp"))
+    ctx.floor(4)
